@@ -1,7 +1,7 @@
 (** C10 - cursor and seek navigation agree with the sorted key sequence.
     Statements only; proofs are in Nav.v. *)
 From Coq Require Import List NArith ZArith Bool.
-From Mast Require Import Prim Key Tree KeyOrder Codec Store Diff World Erase Build Spec Canon Level Inv Nav Hist.
+From Mast Require Import Prim Key Tree KeyOrder Codec Store Diff World Erase Build Spec Canon Level Inv Nav Hist Cursor.
 Import ListNotations.
 
 Section GENERIC.
@@ -33,11 +33,63 @@ End GENERIC.
 Theorem C10_seek_empty : forall bf m k, kcanon bf m [] -> oks (seek_iter _ _ kcmp m k) (fun r => r = []).
 Proof. intros bf m k C. exact (seek_iter_ok key val kcmp (klayer bf) kcmp_eq kcmp_antisym kcmp_trans bf m [] k C). Qed.
 
-(** PARTIAL: the cursor operations (Min / Max / Ceil / Forward / Backward / Get) are modelled
-    (the cur_min, cur_max, cur_ceil, cur_forward, cur_backward functions of Tree.v) and compared with the implementation on every run (150 histories of random walks
-    from Min, Max and Ceil on trees of all residencies, incl. empty trees), and judged by a bisect
-    oracle; the theorem that a cursor is "at position i of the listing" is not proved yet. *)
+(** * the cursor
+    A cursor path denotes the entries from its position to the end of the listing ([after]); the
+    path invariant [pok] says every node on it is non-empty down to the leaves and every index within
+    bounds, [valid] that the head index names an entry. *)
+Section CURSOR.
+Variables (K V : Type) (cmp : K -> K -> comparison) (layer : K -> nat).
+Hypothesis cmp_eq : forall a b, cmp a b = Eq <-> a = b.
+Hypothesis cmp_antisym : forall a b, cmp b a = CompOpp (cmp a b).
+Hypothesis cmp_trans : forall a b c, cmp a b = Lt -> cmp b c = Lt -> cmp a c = Lt.
+
+(** Get returns the first entry in front of the cursor *)
+Theorem C10_get : forall p, valid K V p -> cur_get _ _ p = hd_error (after K V p).
+Proof. exact (get_ok K V). Qed.
+
+(** Min on a fresh cursor puts the whole listing in front of it *)
+Theorem C10_min : forall F (n : node K V), ne K V F n ->
+  oks (cur_min _ _ F [(n, 0%Z)]) (fun p' => after K V p' = to_list_n K V n /\ valid K V p' /\ pok K V F p').
+Proof. exact (min_ok K V). Qed.
+
+(** Forward drops exactly the first entry (descending into a right subtree, stepping inside a node, or
+    popping exhausted ancestors), from any valid position *)
+Theorem C10_forward : forall F p, valid K V p -> pok K V F p ->
+  oks (cur_forward _ _ F p) (fun p' => after K V p' = tl (after K V p) /\ valid K V p' /\ pok K V F p').
+Proof. exact (forward_ok K V). Qed.
+
+(** Ceil k on a fresh cursor puts exactly the entries not smaller than k in front of it (k present or
+    absent, of any layer) *)
+Theorem C10_ceil : forall F k (n : node K V), ne K V F n -> ssorted K V cmp (to_list_n K V n) ->
+  oks (cur_ceil _ _ cmp F k [(n, 0%Z)])
+      (fun p' => after K V p' = from_key K V cmp k (to_list_n K V n) /\ valid K V p' /\ pok K V F p').
+Proof. exact (ceil_ok K V cmp cmp_eq cmp_trans). Qed.
+
+(** on every non-empty canonical tree: Min (resp. Ceil k), then j times Forward, then Get reads the
+    j-th entry of the listing (resp. of the entries not smaller than k), and nothing once past the end *)
+Theorem C10_cursor_walk : forall bf (m : mast K V) l j n,
+  canon K V cmp layer bf m l -> l <> [] -> root_n _ _ (m_root _ _ m) = Some n ->
+  oks (let* p := cur_min _ _ (S (m_height _ _ m)) [(n, 0%Z)] in forward_n K V (S (m_height _ _ m)) j p)
+      (fun p => cur_get _ _ p = nth_error l j).
+Proof. exact (cursor_walk K V cmp layer). Qed.
+
+Theorem C10_cursor_ceil_walk : forall bf (m : mast K V) l j n k,
+  canon K V cmp layer bf m l -> l <> [] -> root_n _ _ (m_root _ _ m) = Some n ->
+  oks (let* p := cur_ceil _ _ cmp (S (m_height _ _ m)) k [(n, 0%Z)] in forward_n K V (S (m_height _ _ m)) j p)
+      (fun p => cur_get _ _ p = nth_error (from_key K V cmp k l) j).
+Proof. exact (cursor_ceil_walk K V cmp layer cmp_eq cmp_trans). Qed.
+End CURSOR.
+
+(** PARTIAL: Max and Backward (the mirror image) are modelled and compared with the implementation on
+    every run (random walks from Min, Max and Ceil on trees of all residencies, incl. empty trees,
+    judged by a bisect oracle) but not proved yet. *)
 Print Assumptions C10_seek_iter.
 Print Assumptions C10_from_key_is_suffix.
 Print Assumptions C10_iter.
 Print Assumptions C10_seek_empty.
+Print Assumptions C10_get.
+Print Assumptions C10_min.
+Print Assumptions C10_forward.
+Print Assumptions C10_ceil.
+Print Assumptions C10_cursor_walk.
+Print Assumptions C10_cursor_ceil_walk.
